@@ -115,6 +115,17 @@ func registerRT(e *Engine) {
 		p.addInput(name, "dec", t)
 		return VDec{T: t}
 	})
+	// DecRawMax(name, maxRawDecimalString): LegacyDec with raw value in [0, max]
+	rt("DecRawMax", func(p *Path, a []Value) Value {
+		name := cStr(a[0], "rt input name")
+		mx, ok := new(big.Int).SetString(cStr(a[1], "max"), 10)
+		if !ok {
+			panic(engErr("rt.DecRawMax: bad max"))
+		}
+		t := IntVar(inName(name), bi(0), mx)
+		p.addInput(name, "dec", t)
+		return VDec{T: t}
+	})
 	rt("Str", func(p *Path, a []Value) Value {
 		name := cStr(a[0], "rt input name")
 		t := Var(inName(name), SStr)
